@@ -1,6 +1,6 @@
 (* C12 property theorems: ONLY statements closed by `exact`, each followed by Print Assumptions. *)
 From Coq Require Import List Ascii ZArith NArith Bool.
-From DuneV Require Import C12_Model C12_Spec C12_Proofs C12_Proofs_Int C12_Proofs_Tree C12_Proofs_Lex C12_Proofs_Frame C12_Proofs_Opt C12_Proofs_Order.
+From DuneV Require Import C12_Model C12_Spec C12_Proofs C12_Proofs_Int C12_Proofs_Tree C12_Proofs_Lex C12_Proofs_Frame C12_Proofs_Opt C12_Proofs_Order C12_Proofs_Api.
 Import ListNotations.
 Local Open Scope char_scope.
 
@@ -248,3 +248,40 @@ Theorem C12_hash_in_quoted_repaired :
   c12_lookup t [["x"]] = Some ["a"; "#"; "b"] /\ c12_lookup t [["y"]] = Some ["1"].
 Proof. exact c12_hash_in_quoted_repaired. Qed.
 Print Assumptions C12_hash_in_quoted_repaired.
+
+(* ---------------------------------------------------------------- remaining public members (API audit) *)
+
+(* non-const sub(key) that returns has created the subtree: hasSub(key) afterwards *)
+Theorem C12_sub_creates : forall p t t', p <> [] -> c12_sub_mut t p = (t', true) -> c12_has_sub t' p = Some true.
+Proof. exact c12_sub_mut_creates. Qed.
+Print Assumptions C12_sub_creates.
+
+(* const sub(key, fail_if_missing): where hasSub(key) holds it is the node at that path, whatever the flag;
+   a missing last segment is the empty tree, or RangeError when the flag is set *)
+Theorem C12_sub_const_node : forall p t fail, c12_has_sub t p = Some true -> c12_sub_const t p fail = Some (c12_node t p).
+Proof. exact c12_sub_const_node. Qed.
+Print Assumptions C12_sub_const_node.
+Theorem C12_sub_const_missing : forall t k fail,
+  c12_mem k (c12_vals t) = false -> c12_assoc k (c12_subs t) = None ->
+  c12_sub_const t [k] fail = if fail then None else Some c12_empty.
+Proof. exact c12_sub_const_missing. Qed.
+Print Assumptions C12_sub_const_missing.
+
+(* report(): every value entry of a node is listed as  key = "value" *)
+Theorem C12_report_lists_values : forall t pfx k v,
+  In (k, v) (c12_vals t) -> In (c12_value_line (k, v)) (c12_report_lines t pfx).
+Proof. exact c12_report_lists_values. Qed.
+Print Assumptions C12_report_lists_values.
+Example C12_report_nonvacuous :
+  c12_report_lines (fst (c12_set_all [(["b"; "."; "y"], ["2"]); (["a"], ["1"]); (["b"; "."; "x"], [])] c12_empty)) ["P"]
+  = [["a"; " "; "="; " "; """"; "1"; """"]; ["["; " "; "P"; "b"; " "; "]"];
+     ["x"; " "; "="; " "; """"; """"]; ["y"; " "; "="; " "; """"; "2"; """"]].
+Proof. vm_compute. reflexivity. Qed.
+
+(* Parser<double>: the modelled extraction returns the exact decimal of the literal (rounding is strtod's) *)
+Example C12_double_nonvacuous :
+  c12_parse_scalar c12_extract_double [" "; "-"; "1"; "."; "2"; "5"; "e"; "+"; "2"; " "] = Some (true, 125%Z, 0%Z) /\
+  c12_parse_scalar c12_extract_double ["1"; "e"] = None /\
+  c12_parse_scalar c12_extract_double ["."] = None /\
+  c12_parse_range true c12_extract_double 2 ["."; "5"; " "; "2"; "."] = Some [(false, 5%Z, (-1)%Z); (false, 2%Z, 0%Z)].
+Proof. vm_compute. repeat split; reflexivity. Qed.
